@@ -47,7 +47,7 @@ PLAN = {
  "C06r_m4": [("C06", ["--only", "decaf448"])],
  "C10r_m1": [("C10", [])], "C10r_m2": [("C10", [])], "C10r_m3": [("C10", ["--only", "helper"])],
  "C19r_m1": [("C06", ["--only", "ed25519"])], "C19r_m2": [("C10", []), ("C19", ["--only", "jq255s"])], "C19r_m3": [("C08", ["--only", "secp256k1"])],
- "C19r_m4": [("C19", ["--only", "gls254"]), ("C09", ["--only", "gls254"])],
+ "C19r_m4": [("C19", [])],
  "C20r_m1": [("C20", ["--only", "jq255s"])], "C20r_m2": [("C20", ["--only", "gfsecp256k1"])], "C20r_m3": [("C20", ["--only", "lookup"]), ("C20", [])],
  "C20r_m4": [("C20", ["--only", "sc448"])],
  "C01r_m1": [("C01", [])], "C01r_m2": [("C01", ["--only", "gf25519"])], "C01r_m3": [("C01", ["--only", "gfsecp256k1"])],
